@@ -280,6 +280,8 @@ def generate(seed, run, tier="quick", overrides=None):
             st = {"op": "lib", "which": which, "pick": rng.randrange(1 << 20)}
         elif k.startswith("rename."):
             st = {"op": k, "slot": rng.randrange(n_slots)}
+            if rng.random() < 0.5:
+                st["route"] = rng.randrange(1, 7)
             if k == "rename.permute":
                 st["perms"] = [[rng.randrange(1 << 20), rng.randrange(1 << 20)]
                                for _ in range(rng.choice([1, 2, 2, 3, 4]))]
@@ -625,7 +627,7 @@ class C08Session:
         sl = self._slot(st)
         if sl is None:
             return {"skip": True}
-        e = Expr(sl["expr"], target_idx=list(sl["targets"]) if sl["targets"] else [])
+        e = self.make_expr(sl, st.get("route", 0))
         after = e.substitute_contracted().sympy
         what = "substitute_contracted"
         self.check_targets_untouched(sl["expr"], after, sl["targets"], what)
@@ -643,7 +645,7 @@ class C08Session:
         if sl is None:
             return {"skip": True}
         before_names = {k: set(v) for k, v in self.model.known.items()}
-        e = Expr(sl["expr"], target_idx=list(sl["targets"]) if sl["targets"] else [])
+        e = self.make_expr(sl, st.get("route", 0))
         after = e.substitute_with_generic().sympy
         what = "substitute_with_generic"
         self.check_targets_untouched(sl["expr"], after, sl["targets"], what)
@@ -665,7 +667,7 @@ class C08Session:
         sl = self._slot(st)
         if sl is None:
             return {"skip": True}
-        orig = Expr(sl["expr"], target_idx=list(sl["targets"]) if sl["targets"] else [])
+        orig = self.make_expr(sl, st.get("route", 0))
         cp = orig.copy()
         if st["how"] == "sc":
             cp.substitute_contracted()
@@ -696,7 +698,7 @@ class C08Session:
             if p is q:
                 q = cl[(cl.index(p) + 1) % len(cl)]
             perms.append((p, q))
-        e = Expr(sl["expr"], target_idx=list(sl["targets"]))
+        e = self.make_expr(sl, st.get("route", 0))
         got = e.permute(*perms).sympy
         want = sl["expr"]
         for p, q in perms:
@@ -707,6 +709,61 @@ class C08Session:
             self.viol("rename", "b-permute", f"permute{[(str(p), str(q)) for p, q in perms]} "
                       f"of {sl['expr']} gave {got}, sequential transpositions give {want}")
         return {"permute": str(got)}
+
+    def make_expr(self, sl, route=0):
+        """wrap the slot's expression in an Expr container through one of several
+        equivalent construction routes (C08: 'all terms and target sets' must not depend on
+        how the container came about)"""
+        from adcgen import Expr
+        expr, targets = sl["expr"], list(sl["targets"])
+        nospin = not any(self.key_of(t)[1] for t in targets)
+        route = route % 7
+        if route == 1 and nospin:
+            return Expr(expr, target_idx=[t.name for t in targets])
+        if route == 2:
+            e = Expr(expr)
+            e.set_target_idx(targets)
+            return e
+        if route == 3 and expr.is_Add:
+            e = Expr(expr.args[0], target_idx=targets)
+            for a in expr.args[1:]:
+                e += Expr(a, target_idx=targets)
+            return e
+        if route == 4:
+            return Expr(expr, target_idx=targets).copy()
+        if route == 5 and nospin and targets:
+            return Expr(expr, target_idx="".join(t.name for t in targets))
+        if route == 6:
+            # Einstein convention - only when it determines the same target set
+            if self._einstein_targets(expr) == set(targets):
+                self.probes["einstein_route"] = self.probes.get("einstein_route", 0) + 1
+                return Expr(expr)
+        return Expr(expr, target_idx=targets)
+
+    def _einstein_targets(self, expr):
+        """targets by index counting (independent of the library): indices that occur exactly
+        once in every term; None if the terms disagree or a denominator is involved"""
+        from sympy import Pow, Mul
+        res = None
+        for term in (expr.args if expr.is_Add else (expr,)):
+            cnt = {}
+            for a in (term.args if isinstance(term, Mul) else (term,)):
+                if isinstance(a, Pow):
+                    return None
+                if a.is_Number:
+                    continue
+                for s_ in getattr(a, "idx", None) or a.atoms(self.Index):
+                    cnt[s_] = cnt.get(s_, 0) + 1
+                if not hasattr(a, "idx"):
+                    return None
+            once = {s_ for s_, n in cnt.items() if n == 1}
+            if any(n > 2 for n in cnt.values()):
+                return None
+            if res is None:
+                res = once
+            elif res != once:
+                return None
+        return res
 
     def _container(self, sl):
         """long-lived Expr container + Term objects of a slot (S9: positional views with
